@@ -21,7 +21,8 @@ RULE = ("E1: complete small groups - 8 prime-order curves over primes <= 61 (a =
         "curves ('std', curve, scalar class): k*G vs OpenSSL and vs the textbook reference for k in {0,1,2,n-1,n,n+1,2^k,2^k-1,seed up to 2n}, k*P "
         "on a non-generator, ('ecdh', curve, i) both directions equal and equal OpenSSL pkeyutl -derive, incl. peers found by deterministic search whose shared x or own coordinates have leading zero bytes; ('ecdhseq', pair, ops) every operation sequence of length <= 4 (5) on ONE ECDH object over {set curve X/Y, load / assign private key X/Y, load / assign public key X/Y} followed by key agreement: a secret exactly when object curve, private and public key agree; ('invalid', curve, kind) off-curve, "
         "out-of-range, infinity and foreign-curve points must be rejected by every loader. Distinct = case tuples; group operations counted in 'measured'."
-        ' Infinity operands include Jacobian encodings of infinity (y = 0 with several x / z) and their negations, under add / neg / double / mul / mul_add.')
+        ' Infinity operands include Jacobian encodings of infinity (y = 0 with several x / z) and their negations, under add / neg / double / mul / mul_add.'
+        " The negation of every representation is encoded and negated twice; the neutral element (singleton and results such as P + (-P), n*P) is negated; operands include representations with unreduced coordinates. ('invalid', curve, 'low-order-y0'): the order-2 point of SECP112r2 (cofactor 4) - its acceptance is a recorded finding.")
 ASSUMPTIONS = [
     "textbook affine group law (vf/ref/ec.py) is the oracle for small groups; OpenSSL 3 CLI is the oracle for the 17 standard curves",
     "standard-curve parameters for the textbook reference are read from the library's curve objects; k*G is additionally compared with OpenSSL, "
